@@ -121,7 +121,7 @@ class MediaList(cssutils.util._NewListBase):
         # must be at least one value!
         if not atleastone:
             ok = False
-            self._wellformed = ok
+            # might raise, self is left unchanged then
             self._log.error('MediaQuery: No content.', error=xml.dom.SyntaxErr)
 
         self._wellformed = ok
